@@ -19,6 +19,10 @@ var c17Tokens = []string{"<p>", "</p>", "<b>", "</b>", "<br>", "<table>", "<td>"
 	"</table>", "<title>", "</a>", `<svg xmlns:xlink="l" xlink:href="h">`, `<i xmlnsfoo=1 xmlns-x=2 x:xmlns=3 XMLNS:Q=4>`,
 	"&amp;lt;&#38;amp;", "<script>a &lt; b &amp;&amp; c</script>", "<pre>\n&amp;amp;</pre>", `<a title="&amp;lt;" href='?a=1&amp;b=2'>`}
 
+var c17Tokens2 = []string{"<ul>", "<li>", "</li>", "<select>", "<option>", "<textarea>", "</textarea>", "<style>", "</style>", "<TITLE>", "</title>", "<tr>", "<th>", "<tbody>", "<caption>",
+	"<form>", "<input disabled VALUE=x>", "<h1>", "<h2>", "</h1>", "&lt;", "&amp;", "&nbsp;", "&#x41;", "&bogus;", "<math>", "<mi>", "</math>", "<template>", "</template>", "<![CDATA[x]]>", "<?pi?>", "<!DOCTYPE x>",
+	"\x00", "<a b b=2>", "<p/>", "<br/>", "</br>", "<img src=a>", "<body class=c>", "<html lang=en>", "<head>", "</head>", "<frameset>", "<noscript>", "<plaintext>"}
+
 // c17Expected is the independent oracle: a recursive walk of html.Parse's DOM.
 func c17Expected(text string) (*adoc.Doc, error) {
 	dom, err := html.Parse(strings.NewReader(text))
@@ -151,6 +155,53 @@ func C17(c *run.Check) {
 			}
 		}
 	})
+	// a second alphabet (entities, raw-text and RCDATA elements, lists, forms,
+	// table parts, uppercase and value-less attributes) at length <= 3 (thorough 4)
+	{
+		alpha := c17Tokens2
+		l2 := 3
+		if !c.Quick() {
+			l2 = 4
+		}
+		n2 := len(alpha)
+		tot, pw := 0, 1
+		var off2 []int
+		for l := 0; l <= l2; l++ {
+			off2 = append(off2, tot)
+			tot += pw
+			pw *= n2
+		}
+		run.ParallelW((tot+chunk-1)/chunk, func(w, ci int) {
+			if (!triage && c.Violations() > 0) || c.TimeUp() {
+				return
+			}
+			for idx := ci * chunk; idx < min((ci+1)*chunk, tot); idx++ {
+				l := 0
+				for l+1 < len(off2) && idx >= off2[l+1] {
+					l++
+				}
+				k := idx - off2[l]
+				toks := make([]string, l)
+				for j := l - 1; j >= 0; j-- {
+					toks[j] = alpha[k%n2]
+					k /= n2
+				}
+				text := "<!doctype html>" + strings.Join(toks, "")
+				c.Evaluations.Add(1)
+				if msg := c17Check(text); msg != "" {
+					if triage {
+						tri.add(firstLine(msg), text+": "+msg)
+					} else {
+						c.Violation(c17Case{Text: text, Detail: msg}, fmt.Sprintf("%q: %s", text, msg))
+						return
+					}
+				} else if idx%13 == 0 {
+					c.Distinct(text)
+				}
+			}
+		})
+		c.Set("second_alphabet", strings.Join(alpha, " "))
+	}
 	// deep and wide families, and documents without a doctype must be errors
 	for _, n := range []int{10, 100, 1000, 5000} {
 		deep := "<!doctype html>" + strings.Repeat("<div>", n) + "x" + strings.Repeat("</div>", n)
